@@ -298,6 +298,11 @@ func LoopCarriedDefaults(p *core.Program, r *core.Report, rule string) {
 								found = true
 							}
 						}
+						// a variable declared inside the loop body is per-iteration state: what it holds was computed for the
+						// current element
+						if v, isVar := info.ObjectOf(id).(*types.Var); isVar && !v.IsField() && v.Pos() >= body.Pos() && v.Pos() < body.End() {
+							found = true
+						}
 					}
 					return true
 				})
@@ -425,6 +430,36 @@ func LoopCarriedDefaults(p *core.Program, r *core.Report, rule string) {
 			}
 			for v, c := range cands {
 				if !c.condAssign || c.plainAssign || !c.elemDep {
+					continue
+				}
+				// a variable that the body tests against its default and leaves the loop (or the function) when the test
+				// fails is back at the default whenever an iteration starts: nothing is carried (the error idiom
+				// `err = f(x) ...; if err != nil { return err }`)
+				resetByExit := false
+				ast.Inspect(body, func(m ast.Node) bool {
+					ifs, ok := m.(*ast.IfStmt)
+					if !ok || len(ifs.Body.List) == 0 {
+						return true
+					}
+					be, ok := ast.Unparen(ifs.Cond).(*ast.BinaryExpr)
+					if !ok || be.Op != token.NEQ {
+						return true
+					}
+					id, ok := ast.Unparen(be.X).(*ast.Ident)
+					if !ok || info.ObjectOf(id) != types.Object(v) || !core.IsNil(info, be.Y) {
+						return true
+					}
+					switch last := ifs.Body.List[len(ifs.Body.List)-1].(type) {
+					case *ast.ReturnStmt:
+						resetByExit = true
+					case *ast.BranchStmt:
+						if last.Tok == token.BREAK {
+							resetByExit = true
+						}
+					}
+					return true
+				})
+				if resetByExit {
 					continue
 				}
 				// read inside the body, never read after the loop
